@@ -53,6 +53,9 @@ func genCase(t *rapid.T) Case {
 		}
 		c.Queries = append(c.Queries, qs)
 	}
+	if rapid.IntRange(0, 5).Draw(t, "rename") == 0 {
+		c.H.Rename = gen.GenRename(t, schema)
+	}
 	return c
 }
 
@@ -160,6 +163,17 @@ func storedSummary(m *model.Collection, q models.Query) string {
 
 func execCase(c Case) (res vt.Result) {
 	rec := vt.R()
+	if r := c.H.Rename; len(r) > 0 {
+		rec.Count("histories_with_renamed_properties", 1)
+		queries := make([][]models.Query, len(c.Queries))
+		for i, qs := range c.Queries {
+			for _, q := range qs {
+				queries[i] = append(queries[i], r.Query(q))
+			}
+		}
+		c.Queries = queries
+		c.H = c.H.Renamed()
+	}
 	h := c.H
 	dir, cleanup := drive.CaseDir()
 	defer cleanup()
